@@ -370,3 +370,12 @@ Example C01_source_example :
   wrap_space (join_semi taxon ++ [46]) 12 = [111; 116; 104; 101; 114; 59; 32; 115; 101; 113] ++ joined 10 [[120; 59; 32; 118; 101; 99; 46]] /\
   Forall nosep taxon /\ join_semi taxon <> [].
 Proof. split; [vm_compute; reflexivity|]. split; [repeat constructor; intros [H [t Ht]]; discriminate|discriminate]. Qed.
+
+(* ACCESSION (a record that is not a slice: no REGION suffix) likewise *)
+Theorem C01_accession_subparser_roundtrip_partial : forall depth a v post o e ap fr k,
+  zlen n_ACCESSION <= depth -> no_eol v -> is_prefix (repeat_byte 32 depth) post = false ->
+  exists s', p_accession depth a
+               (mkst ((n_ACCESSION ++ repeat_byte 32 (depth - zlen n_ACCESSION) ++ v ++ [10]) ++ post) o e ap (fr :: k)) =
+             (Ok (upd_fields a (set_accession (a_fields a) v), None), s') /\ rest s' = post /\ stk s' = fr :: k.
+Proof. exact p_accession_roundtrip. Qed.
+Print Assumptions C01_accession_subparser_roundtrip_partial.
